@@ -14,7 +14,12 @@ run_one() {
     if [ $rc -eq 1 ] && echo "$out" | grep -F "obligation=$obl " | grep -q "VIOLATION property=$prop "; then echo "ok   caught  $(basename $p) -> $obl";
     else echo "MISS        $(basename $p) rc=$rc expected $prop $obl"; echo "$out" | tail -4 | sed 's/^/       /'; fail=1; fi
   else
-    if [ $rc -eq 0 ]; then echo "ok   benign  $(basename $p)"; else echo "ALARM       $(basename $p) rc=$rc"; echo "$out" | grep -E "VIOLATION|MACHINERY" | head -3 | sed 's/^/       /'; fail=1; fi
+    bad=0
+    for pr in $exp; do
+      out=$(tools/mutcheck.sh "$p" "$pr" 2>&1); rc=$?
+      if [ $rc -ne 0 ]; then echo "ALARM       $(basename $p) property=$pr rc=$rc"; echo "$out" | grep -E "VIOLATION|MACHINERY" | head -3 | sed 's/^/       /'; bad=1; fi
+    done
+    [ $bad -eq 0 ] && echo "ok   benign  $(basename $p) ($exp)"
   fi
 }
 export -f run_one
